@@ -440,6 +440,82 @@ func c13Dates(p *core.Program, r *core.Report, envsPk *packages.Package, envs *s
 		r.Errorf("dateFromFormats: could not read the year/month/day group parameters")
 		return
 	}
+	// the year is taken as written: any arithmetic on it (the two-digit expansion) is controlled by the length of
+	// the year group's text, true for two characters and false for four — a rendered year 0001..0099 has four digits
+	{
+		yearP := dff.Params[roles["year"]]
+		lenOfYearText := func(v ssa.Value) bool {
+			a, ok := isLenCall(v)
+			if !ok {
+				return false
+			}
+			ps, _ := indexOperands(a)
+			return len(ps) == 1 && ps[0] == yearP
+		}
+		holds := func(op token.Token, k, n int64) bool {
+			switch op {
+			case token.EQL:
+				return n == k
+			case token.NEQ:
+				return n != k
+			case token.LSS:
+				return n < k
+			case token.LEQ:
+				return n <= k
+			case token.GTR:
+				return n > k
+			case token.GEQ:
+				return n >= k
+			}
+			return false
+		}
+		nAdj, bad, at := 0, "", dff.Pos()
+		for _, cs := range core.Calls(dff, false) {
+			if o := core.CalleeObj(cs.Common()); o == nil || core.ObjName(o) != gocommonDates+".NewDate" {
+				continue
+			}
+			for v := range core.BackSlice(cs.Common().Args[0], nil) {
+				bo, ok := v.(*ssa.BinOp)
+				if !ok || (bo.Op != token.ADD && bo.Op != token.SUB && bo.Op != token.MUL && bo.Op != token.REM && bo.Op != token.QUO) {
+					continue
+				}
+				nAdj++
+				guarded := false
+				for _, ce := range core.ControllingConds(bo.Block()) {
+					c, ok := ce.Cond.(*ssa.BinOp)
+					if !ok {
+						continue
+					}
+					op, lenV, kV := c.Op, c.X, c.Y
+					if !lenOfYearText(lenV) {
+						lenV, kV = c.Y, c.X
+						switch op {
+						case token.LSS:
+							op = token.GTR
+						case token.GTR:
+							op = token.LSS
+						case token.LEQ:
+							op = token.GEQ
+						case token.GEQ:
+							op = token.LEQ
+						}
+					}
+					k, isC := core.ConstInt(kV)
+					if !lenOfYearText(lenV) || !isC {
+						continue
+					}
+					if holds(op, k, 2) == ce.Taken && holds(op, k, 4) != ce.Taken {
+						guarded = true
+					}
+				}
+				if !guarded && bad == "" {
+					bad, at = "year "+bo.Op.String()+" "+canonShort(bo.Y), bo.Pos()
+				}
+			}
+		}
+		r.Check(bad == "", "R1", "dateFromFormats/year-as-written", p.Pos(at), fmt.Sprintf("%d adjustments of the year, each only for a two-character year text", nAdj),
+			"the year is adjusted ("+bad+") without a test that its text has two characters rather than four: a date rendered with a four-digit year below 100 (0050) reads back as another year")
+	}
 	covered := map[string]bool{}
 	for _, cs := range core.Calls(parseDate, false) {
 		if cs.Common().StaticCallee() != dff {
